@@ -13,7 +13,7 @@ os.makedirs(dst)
 for f in ("patch.diff", "demo.py"):
     shutil.copy(os.path.join(src, f), os.path.join(dst, f))
 out = {"property": pid, "summary": m["summary"], "needs": m["needs"],
-       "seeded_by": "independent sub-agent given only the property text and a scratch worktree of /repo (wave 5)",
+       "seeded_by": "independent sub-agent given only the property text and a scratch worktree of /repo (wave %s)" % os.environ.get("SEED_WAVE", "6"),
        "ran_by_seeder": [m.get("ran")],
        "confirmed": "tools/seedtest.py: demo exits 0 on /repo and 1 on the patched copy; bin/check %s --tier quick exits 1 with a "
                     "VIOLATION line and a concrete failing input against the copy, exits 0 on /repo" % pid,
